@@ -35,15 +35,18 @@ func genScenario(g *hx.RNG, newState bool, length int, long bool) *Scenario {
 	sc.Sync = 1 + g.Intn(length/2)
 	sc.Interrupt = !long
 	young := g.Intn(length/2 + 1) // the last `young` blocks are younger than the minimum age
+	if long {
+		young = g.Intn(20)
+	}
 	if g.Chance(15) {
 		young = length
 	}
 	for i := 0; i < length; i++ {
 		age := uint64(100000 + (length-i)*10)
 		if i >= length-young {
-			age = uint64(youngAge - (i-(length-young)) - 1)
-			if age > youngAge {
-				age = 1
+			age = 1
+			if off := i - (length - young); off < youngAge-1 {
+				age = uint64(youngAge - 1 - off)
 			}
 		}
 		sc.Ages = append(sc.Ages, age)
